@@ -5,7 +5,7 @@
    Extracted.v on every run.  `content` (the byte string a name stands for: ids are
    content hashes) is universally quantified; nothing is assumed about it. *)
 From Verif.Base Require Import Tactics.
-From Verif.C19 Require Import Types Extracted Model Spec Proofs ProofsList ProofsStep ProofsTop ProofsStray Examples.
+From Verif.C19 Require Import Types Extracted Model Spec Proofs Commands ProofsList ProofsStep ProofsTop ProofsStray ProofsCmd Examples.
 
 (* If every cached file equals the backend file of the same name, then EVERY sequence of
    operations of the cached handle (reads, partial reads, writes, removes, listings,
@@ -118,3 +118,110 @@ Theorem strays_inert : forall ops c c' be,
   bke (snd (run_c ops (mkst c be))) = bke (snd (run_c ops (mkst c' be))).
 Proof. exact strays_inert_lemma. Qed.
 Print Assumptions strays_inert.
+
+(* ------------------------------------------------------------------ command level *)
+
+(* The access pattern of the generic readers, regenerated from the source (decrypt.rs,
+   backend.rs, snapshotfile.rs, index.rs, cat.rs): exactly these six read a file of the given
+   type without listing the type first — a caller-supplied id list, or an explicitly given
+   full id; every other reader (stream_all, find_starts_with, find_ids with a prefix, latest,
+   from_str / from_strs with "latest" or a prefix, update_from_backend, GlobalIndex::new /
+   only_full_trees, cat_file with a prefix) lists first. *)
+Theorem unlisted_readers : forall r,
+  (rdr_reads r = true /\ rdr_lists_first r = false) <->
+  In r [StreamList; GetFile; SnapFromStrId; SnapFromStrsIdsOnly; SnapUpdateFromIdsFull; CatFileFull].
+Proof. exact unlisted_readers_lemma. Qed.
+Print Assumptions unlisted_readers.
+
+(* Every history made of whole command steps — accesses through listing readers, direct
+   listings, writes, removals, uncached partial reads — interleaved at step boundaries with
+   anything another process does to the repository or to the cache directory, satisfies the
+   executable discipline, from ANY ghost state.  (Rests on the extracted facts
+   rdr_lists_first and list_reaches_cleanup: ReadBackend::list ends in
+   CachedBackend::list_with_size.) *)
+Theorem commands_are_disciplined : forall h coh,
+  forallb good_item h = true -> disciplined coh (history_ops h) = true.
+Proof. exact commands_are_disciplined_lemma. Qed.
+Print Assumptions commands_are_disciplined.
+
+(* ... hence such histories are transparent from ANY cache state of the fault list (stale,
+   foreign, truncated, wrong-size, misplaced files): same results, same backend. *)
+Theorem commands_transparent : forall content h c be,
+  BeHonest content be -> CacheFaulty content c ->
+  Forall (op_honest content) (history_ops h) -> forallb good_item h = true ->
+  fst (run_c (history_ops h) (mkst c be)) = fst (run_u (history_ops h) be) /\
+  bke (snd (run_c (history_ops h) (mkst c be))) = snd (run_u (history_ops h) be).
+Proof. exact commands_transparent_lemma. Qed.
+Print Assumptions commands_transparent.
+
+(* The un-listed readers: a read of an explicitly given id of a cacheable type returns what
+   the backend returns if and only if the cache has no file of that name or one that equals
+   the backend's. *)
+Theorem explicit_id_read_spec : forall c be t i,
+  is_cacheable t = true ->
+  (fst (cb_read_full (mkst c be) t i) = RData (be_read_full be t i) <->
+   (forall d, find (t, i) (files c) = Some d -> find (t, i) be = Some d)).
+Proof. exact explicit_id_read_spec_lemma. Qed.
+Print Assumptions explicit_id_read_spec.
+
+(* ... and the property fails there (KNOWN FINDING explicit-id-read-of-removed-file): a
+   snapshot that another process removed is still returned by its full id through the
+   cached handle; all premises of commands_transparent hold except good_item. *)
+Theorem explicit_id_read_refuted :
+  exists content h c be,
+    BeHonest content be /\ CacheFaulty content c /\ Forall (op_honest content) (history_ops h) /\
+    Forall (fun x => match x with HStep s => unlisted_access s = true | HEnv _ => False end) h /\
+    fst (run_c (history_ops h) (mkst c be)) <> fst (run_u (history_ops h) be).
+Proof. exact explicit_id_read_refuted_lemma. Qed.
+Print Assumptions explicit_id_read_refuted.
+
+(* check: after any good history (its listings and reads of snapshot and index files), the
+   pack clean-up with the tree packs of the index (which check_packs has just compared with
+   the pack listing: PacksListed) makes the cached tree packs coherent: the reads of tree
+   packs (partial, cacheable) and of packs in full that follow are transparent — from any
+   cache state, including stale, foreign and truncated tree packs. *)
+Theorem check_tree_packs_transparent : forall content pre l ord post c be,
+  BeHonest content be -> CacheFaulty content c ->
+  forallb good_item pre = true ->
+  Forall (op_honest content) (history_ops pre) -> Forall (op_honest content) post ->
+  PacksListed l (snd (run_u (history_ops pre) be)) ->
+  forallb pack_read post = true ->
+  let ops := history_ops pre ++ OCleanPacks l ord :: post in
+  fst (run_c ops (mkst c be)) = fst (run_u ops be) /\
+  bke (snd (run_c ops (mkst c be))) = snd (run_u ops be).
+Proof. exact check_tree_packs_transparent_lemma. Qed.
+Print Assumptions check_tree_packs_transparent.
+
+(* The commands of the property.  cmd_readers (regenerated from the command bodies: backup's
+   get_parent + to_indexed_ids, get_all_snapshots / get_snapshots + delete_snapshots for forget,
+   prune's index reading and find_used_blobs, check) lists first in every reader, except when
+   snapshots are named by full ids only (explicit parents of backup, forget <full id>). *)
+Theorem listing_commands : forall c,
+  listing_cmd c = true <-> (c <> CmdBackupParentFullIds /\ c <> CmdForgetFullIds).
+Proof. exact listing_commands_lemma. Qed.
+Print Assumptions listing_commands.
+
+(* ... hence every history of steps of backup / forget / prune / check (any variant but the
+   two full-id ones), performed by the cached handle while another handle changes the
+   repository and files appear in the cache directory between the steps, returns the same
+   results and leaves the same repository contents as without cache. *)
+Theorem command_histories_transparent : forall content h c be,
+  BeHonest content be -> CacheFaulty content c ->
+  Forall (op_honest content) (history_ops h) -> Forall cmd_item h ->
+  fst (run_c (history_ops h) (mkst c be)) = fst (run_u (history_ops h) be) /\
+  bke (snd (run_c (history_ops h) (mkst c be))) = snd (run_u (history_ops h) be).
+Proof. exact command_histories_transparent_lemma. Qed.
+Print Assumptions command_histories_transparent.
+
+(* Tree packs outside check (backup's parent trees, prune's and restore's tree walks): no
+   listing ever cleans them, but a command only reads packs that its index names, i.e. packs
+   the repository has.  For those, with cached packs that are the honest content or a
+   truncation of it (stale and truncated files; a stale pack that the repository still has
+   is the same pack), every sequence of partial reads is transparent and the cache keeps the
+   invariant — without any clean-up. *)
+Theorem indexed_pack_reads_transparent : forall content ops c be,
+  BeHonest content be -> PackPrefix content c -> Forall (indexed_pack_read be) ops ->
+  fst (run_c ops (mkst c be)) = fst (run_u ops be) /\
+  bke (snd (run_c ops (mkst c be))) = be /\ snd (run_u ops be) = be.
+Proof. exact indexed_pack_reads_transparent_lemma. Qed.
+Print Assumptions indexed_pack_reads_transparent.
